@@ -154,7 +154,8 @@ def materialize(entry):
     return valgen.build(x)[0] if kind == 'model' else x
 
 
-CFGS = [dict(), dict(width=20), dict(width=40, indent=2, sort_dict_keys=True), dict(width=10, ribbon_width=8)]
+CFGS = [dict(), dict(width=20), dict(width=40, indent=2, sort_dict_keys=True), dict(width=10, ribbon_width=8),
+        dict(depth=1), dict(max_seq_len=2, width=30), dict(depth=2, max_seq_len=1, indent=8)]
 
 
 def worker(indices):
